@@ -246,6 +246,12 @@ class TiffImageStack(NDArrayImageStack[ScalarType]):
         with tifffile.TiffFile(fname, **kwargs) as f:
             s = f.series[0]
             imgs, axes = s.asarray(), s.axes
+            meta_axes = ((f.shaped_metadata or ({},))[0] or {}).get("axes", "")
+
+        if len(meta_axes) == imgs.ndim + 1 and len(axes) == imgs.ndim:
+            # a stack of a single page: the file says e.g. `ZXY`, but the
+            # reader drops the leading axis of length 1 and its label
+            imgs, axes = imgs[np.newaxis], meta_axes
 
         if len(axes) != imgs.ndim or any(c not in AXES_ORDER for c in axes):
             axes_raw = axes
